@@ -374,6 +374,9 @@ def lookup(lookup_value, lookup_array, result_range=None):
             result = result_range[0]
 
     if isinstance(match_idx, int):
+        if match_idx > len(result):
+            # the result vector is shorter than the lookup vector
+            return NA_ERROR
         return result[match_idx - 1]
 
     else:
